@@ -1,5 +1,7 @@
 """C15 Clifford+T approximations meet their precision bound."""
 import math
+import re
+import time
 from fractions import Fraction
 
 from vlib import *
@@ -19,7 +21,8 @@ META = {
                 "numpy float64 for the with-phase and whole-circuit oracles"],
 }
 
-HDR = "From PLV Require Import Disc.CliffordTModel.\nRequire Import QArith String.\nOpen Scope string_scope."
+HDR = "From PLV Require Import Disc.CliffordTModel.\nRequire Import QArith."
+NIB = {"H": "1", "S": "2", "T": "3", "X": "4", "Y": "5", "Z": "6", "s": "7", "t": "8", "I": "9", "P": "a"}
 DPS = 80
 ALLOWED_CT = {"Hadamard", "S", "T", "PauliX", "PauliY", "PauliZ", "Adjoint(S)", "Adjoint(T)", "Identity", "GlobalPhase",
               "CNOT", "CY", "CZ", "SWAP", "ISWAP", "SX", "Adjoint(SX)", "Adjoint(ISWAP)"}
@@ -77,8 +80,15 @@ def target_float(enc):
     return m
 
 
-def g_case(word, enc, eps2, eps2a):
-    return f'("{word}", {glist(enc, lambda e: "(" + gq(e[0]) + ", " + gq(e[1]) + ")")}, {gq(eps2)}, {gq(eps2a)})'
+def g_word(word):
+    """first operator in the least significant nibble, sentinel 1 on top"""
+    return glist([word[k:k + 60] for k in range(0, len(word), 60)],
+                 lambda w: "0x1" + "".join(NIB.get(ch, "f") for ch in reversed(w)) + "%Z")
+
+
+def g_case(word, enc, eps2, eps2a, dyd):
+    st = f"(Some ({glist(dyd[0], gz)}, {gz(dyd[1])}))" if dyd else "None"
+    return f'({g_word(word)}, {glist(enc, lambda e: "(" + gq(e[0]) + ", " + gq(e[1]) + ")")}, {gq(eps2)}, {gq(eps2a)}, {st})'
 
 
 def eps_pair(kind, eps):
@@ -180,6 +190,12 @@ def gen_ct(rng, n, n_sk):
 
 
 # ------------------------------------------------------------------ run
+def bad_phaseshift(theta):
+    """angles for which _rot_decompose's shortcut `PhaseShift(k*pi/4) is T / T*` is wrong: k = 3, 5 mod 8"""
+    k = round(theta / (PI / 4))
+    return abs(theta - k * PI / 4) < 1e-5 and k % 8 in (3, 5)
+
+
 def classify(kind, o, kw):
     """documented escape / known abort, from the read-only hooks"""
     if kind == "rs":
@@ -202,7 +218,9 @@ def run(ctx):
     else:
         cases = ([{"fn": "gridsynth_alias"}] + gen_rs(rng, 1500 if thorough else 190)
                  + gen_sk(rng, 40 if thorough else 9, thorough) + gen_ct(rng, 60 if thorough else 14, 6 if thorough else 3))
+    t0 = time.time()
     obs = ctx.run_impl("c15_impl.py", {"cases": cases}, timeout=3000)
+    t_impl = time.time() - t0
 
     # flatten into word-level items: (case, kind, gate, params, eps, kw, observation, tag)
     items = []
@@ -228,26 +246,26 @@ def run(ctx):
                 hist["ct_gates"] += 1
                 items.append((c, r["kind"], r["gate"], [r["theta"]], r["eps"], c.get("kw", {}), r, "gate"))
 
-    terms, stage_terms, stage_idx = [], [], []
+    terms, n_stage = [], 0
     for idx, (c, kind, gate, params, eps, kw, o, tag) in enumerate(items):
         enc = target_enclosures(gate, params)
         e2, e2a = eps_pair(kind, eps)
-        terms.append(g_case(o["word"], enc, e2, e2a))
-        if o.get("dyd"):
-            stage_terms.append(f'("{o["word"]}", ({glist(o["dyd"][0], gz)}, {gz(o["dyd"][1])}))')
-            stage_idx.append(idx)
-    bad_alpha = set(ctx.coq_eval_cases("alpha", HDR, terms, "ck_alphabet"))
-    bad_unit = set(ctx.coq_eval_cases("unit", HDR, terms, "ck_unitary"))
-    bad_encl = set(ctx.coq_eval_cases("encl", HDR, terms, "ck_encl"))
-    bad_dist = set(ctx.coq_eval_cases("dist", HDR, terms, "ck_dist"))
-    bad_strict = set(ctx.coq_eval_cases("strict", HDR, terms, "ck_dist_strict"))
-    bad_stage = {stage_idx[i] for i in ctx.coq_eval_cases("stage", HDR, stage_terms, "ck_exact_stage")} if stage_terms else set()
-    ctx.coverage["correspondence_cases"] = len(terms)
+        n_stage += bool(o.get("dyd"))
+        terms.append(g_case(o["word"], enc, e2, e2a, o.get("dyd")))
+    t1 = time.time()
+    bad = ctx.coq_eval_cases("cases", HDR, terms, "ct_check_case", chunk=12 if len(terms) < 400 else 60, par=10)
+    codes = {}
+    if bad:
+        res = ctx.coq_eval_terms("codes", HDR, [f"ct_code {terms[i]}" for i in bad])
+        codes = {i: int(re.sub(r"[^0-9]", "", r) or 0) for i, r in zip(bad, res)}
+    t_coq = time.time() - t1
+    flag = lambda b: {i for i, v in codes.items() if v & b}
+    bad_alpha, bad_unit, bad_encl, bad_dist, bad_strict, bad_stage = (flag(b) for b in (1, 2, 4, 8, 16, 32))
     if bad_encl:
         raise CoqError("harness produced an empty enclosure")
 
     stats = {"within_eps": 0, "marginal_float_resolution": 0, "documented_escape": 0, "known_abort": 0,
-             "exact_stage_checked": len(stage_terms), "max_word": 0, "nontrivial_words": 0}
+             "exact_stage_checked": n_stage, "max_word": 0, "nontrivial_words": 0}
     escaped_cases = set()
     for idx, (c, kind, gate, params, eps, kw, o, tag) in enumerate(items):
         key = json.dumps(c, sort_keys=True) + (f"|gate={gate}:{params[0]!r}:{eps!r}" if tag == "gate" else "")
@@ -310,15 +328,21 @@ def run(ctx):
             if r["eps"] * len(o["rec"]) > c["eps"] * (1 + 1e-9):
                 ctx.violation("ct-eps:" + key, rep, what=f"per-gate precision {r['eps']} x {len(o['rec'])} approximated gates exceeds the requested circuit precision {c['eps']}")
         if id(c) not in escaped_cases:
-            circ["max_ratio"] = max(circ["max_ratio"], o["d_circ"] / c["eps"])
             if o["d_circ"] > c["eps"] * (1 + 1e-6) + 1e-9:
-                ctx.violation("ct-circuit:" + key, rep, what=f"whole-circuit operator-norm error {o['d_circ']:.3g} exceeds epsilon={c['eps']}")
+                if any(n == "PhaseShift" and bad_phaseshift(p[0]) for n, p, _ in c["ops"]):
+                    circ["known_phaseshift_defect"] = circ.get("known_phaseshift_defect", 0) + 1
+                    ctx.violation("finding:ct-phaseshift-3pi/4-replaced-by-T", rep,
+                                  what=f"clifford_t_decomposition replaces PhaseShift(k*pi/4), k = 3 or 5 mod 8, by T / Adjoint(T) (off by a Pauli Z): whole-circuit error {o['d_circ']:.3g} > epsilon={c['eps']}")
+                else:
+                    ctx.violation("ct-circuit:" + key, rep, what=f"whole-circuit operator-norm error {o['d_circ']:.3g} exceeds epsilon={c['eps']}")
+            else:
+                circ["max_ratio"] = max(circ["max_ratio"], o["d_circ"] / c["eps"])
 
     hist.update(stats)
     ctx.coverage.update({
         "evaluations": len(terms), "distinct_nontrivial": stats["nontrivial_words"],
         "rule": "corpus (all multiples of pi/4 and odd multiples of pi/8, tiny angles, angles near +-2pi/+-4pi, each at grid precisions 1e-1..1e-8) then seeded random angles in [-2.2pi,2.2pi] x precisions (grid or log-uniform 1e-8..1e-1) for rs (RZ/PhaseShift); sk on RZ/RX/RY/PhaseShift/Rot; random 1-3 wire circuits for the transform (every approximated gate checked); non-trivial = word containing T gates",
-        "input_distribution": hist, "transform": circ,
+        "input_distribution": hist, "transform": circ, "seconds": {"implementation": round(t_impl, 1), "coq_cases": round(t_coq, 1)},
         "enclosure_digits": DPS})
     for (c, kind, gate, params, eps, kw, o, tag) in items[:3] + items[-2:]:
         ctx.sample({"case": c if tag == "top" else {"transform_gate": [gate, params, eps]}, "word_len": len(o["word"]),
